@@ -317,6 +317,22 @@ def perm_part(run):
                                   'Util.process applied to topic %r gives %s %dx%d %r, the transforms one after the other give %s %dx%d %r'
                                   % (tpc, g.format, g.width, g.height, rows_of(g.image), cur.format, cur.width, cur.height, rows_of(cur.image)), case)
                     break
+            # the SAME Util object is then handed a frame of another format (a source whose format changes, topics of different
+            # formats): what it does to it is what a freshly configured Util does - nothing is remembered from the first frame
+            fmt2 = rng.choice([f for f in ('GRAY', 'BGR', 'RGB') if f != fmt])
+            img2, _ = mk_image(rng, w, h, fmt2)
+            cfg2 = Util.normalize_config({'id': 'u', 'xforms': ', '.join(ops_txt)})
+            want2 = Frame(img2.copy(), format=fmt2)
+            for xf2 in cfg2.xforms:
+                want2 = UTIL.execute_xforms(adict(topic='main', frame=want2, xforms=[xf2])).frame
+            u2 = Util.__new__(Util)
+            u2.setup(cfg)                      # the transforms of the first frame, with whatever they have cached
+            g2 = u2.process({'main': Frame(img2.copy(), format=fmt2)})['main']
+            u2.executor.shutdown(wait=False)
+            if (g2.format, g2.width, g2.height) != (want2.format, want2.width, want2.height) or not np.array_equal(g2.image, want2.image):
+                run.violation('process:second-frame-differs %s %s->%s' % (', '.join(x.split(' ')[0] for x in ops_txt), fmt, fmt2),
+                              'after a %s frame the same Util turns a %s frame %r into %r, a fresh one into %r'
+                              % (fmt, fmt2, rows_of(img2), rows_of(g2.image), rows_of(want2.image)), dict(case, second=[fmt2, rows_of(img2)]))
         except Exception as e:     # noqa
             run.violation('process:raises %s' % type(e).__name__, 'Util.process raised %r' % (e,), case)
         run.seen(('p', w, h, fmt, tuple(ops_txt), img.tobytes()))
